@@ -26,8 +26,8 @@ CHUNK = 25000
 # TLC: Layer B candidate generation
 
 
-def tlc_identity(u):
-    r = vlib.run_tlc("Identity", "Identity.cfg", gen={"IdentityU.tla": valuesu.identityu_tla(u)}, workers=4, timeout=600)
+def tlc_identity(u, repaired=True):
+    r = vlib.run_tlc("Identity", "Identity.cfg", gen={"IdentityU.tla": valuesu.identityu_tla(u, repaired)}, workers=4, timeout=600)
     if r.violation:
         raise Infra("Identity.tla: unexpected TLC violation: %s\n%s" % (r.violation, r.out[-2000:]))
     cands = []
@@ -57,10 +57,10 @@ def _seqs(line):
     return out
 
 
-def tlc_valuetext(tier, cfgs):
+def tlc_valuetext(tier, cfgs, repaired=True):
     """Runs the given ValueText.tla configurations; returns (results, candidates for the driver)."""
     n = 3 if tier == "quick" else 4
-    gen = {"ValueTextC.tla": "---- MODULE ValueTextC ----\nMaxLen == %d\n====\n" % n}
+    gen = {"ValueTextC.tla": "---- MODULE ValueTextC ----\nMaxLen == %d\nRepaired == %s\n====\n" % (n, "TRUE" if repaired else "FALSE")}
     results, cands = [], []
     for cfg in cfgs:
         r = vlib.run_tlc("ValueText", cfg, gen=gen, workers=8, timeout=1200, heap="6g")
@@ -461,9 +461,21 @@ def check(prop):
     if prop == "C06":
         r, cands = tlc_identity(u)
         tlc_runs.append(r)
+        # control: the design as first read (8-byte varint buffer, untagged objects) must yield MORE candidates
+        _, cands0 = tlc_identity(u, repaired=False)
+        if len(cands0) <= len(cands):
+            raise Infra("Identity.tla with Repaired = FALSE yields no more candidates (%d) than the current design (%d)" % (len(cands0), len(cands)))
+        cov["layer_b_original_design_counterexamples"] = len(cands0)
     else:
-        rs, cands = tlc_valuetext(tier, ["ValueTextRT.cfg"] if prop == "C05" else ["ValueTextParse.cfg"])
+        cfgs = ["ValueTextRT.cfg"] if prop == "C05" else ["ValueTextParse.cfg"]
+        rs, cands = tlc_valuetext(tier, cfgs)
         tlc_runs += rs
+        # control: the same module with the parsers as first read (FIRST delimiter, unchecked slices) must still
+        # produce the counterexamples that were confirmed on the real code and repaired there (fixed: entries)
+        rs0, cands0 = tlc_valuetext("quick", cfgs, repaired=False)
+        if not cands0:
+            raise Infra("ValueText.tla with Repaired = FALSE no longer yields any counterexample: the model lost the behaviour it was built to show")
+        cov["layer_b_original_design_counterexamples"] = len(cands0)
     trace, st, samples = run_driver(MODE[prop], d, cands)
     rejects, opens, states, nev = validate(trace)
     if st.get("events") != nev:
